@@ -209,9 +209,21 @@ def fixable_function(draw, i):
     elif kind == "unused-comp":
         comp = draw(st.sampled_from([f"[1 for x{i} in a]", f"{{1 for x{i} in a}}", f"{{1: b for x{i} in a}}", f"list(1 for x{i} in a)",
                                      f"[z{i} for z{i} in a for x{i} in a]"]))
-        body = ["return " + in_context(draw, comp)]
         if draw(st.booleans()):
+            # the same comprehension kinds over an iterable whose members the checker knows (a short literal display,
+            # a string, range(n)): it then evaluates the body once per member
+            it = draw(st.sampled_from(["(1, 2, 3)", "[a, b]", '"ab"', "range(3)", "(a,)", "[1, 2]"]))
+            comp = draw(st.sampled_from([f"[1 for x{i} in {it}]", f"{{1 for x{i} in {it}}}", f"{{1: b for x{i} in {it}}}", f"{{b: 0 for x{i} in {it}}}",
+                                         f"list(1 for x{i} in {it})", f"[z{i} for z{i} in {it} for x{i} in {it}]"]))
+        body = ["return " + in_context(draw, comp)]
+        how = draw(st.sampled_from(["return", "global", "local", "local-bare"]))
+        if how == "global":
             body = [f"global G{i}", f"G{i} = " + in_context(draw, comp), "return b"]
+        elif how == "local":
+            body = [f"y{i} = " + in_context(draw, comp), f"return y{i}"]
+        elif how == "local-bare":
+            # the comprehension is the whole right-hand side of a single-target assignment
+            body = [f"y{i} = {comp}", f"return (y{i}, b)"]
     elif kind == "unused-aug":
         body = [f"x{i} = 0", f"x{i} = a", "return b"]
     elif kind == "unused-line1":
